@@ -10,6 +10,7 @@ use std::time::{Duration, Instant};
 
 mod rng;
 mod c15;
+mod c06;
 
 pub struct Budget {
     pub end: Instant,
@@ -26,6 +27,7 @@ fn run_one(pid: &str, input: &Value) -> Option<Value> {
     let pid_s = pid.to_string();
     let r = std::panic::catch_unwind(move || match pid_s.as_str() {
         "C15" => c15::run(&input),
+        "C06" => c06::run(&input),
         _ => None,
     });
     match r {
@@ -46,6 +48,7 @@ fn run_one(pid: &str, input: &Value) -> Option<Value> {
 fn gen(pid: &str, r: &mut rng::Rng) -> Option<Value> {
     match pid {
         "C15" => Some(c15::gen(r)),
+        "C06" => Some(c06::gen(r)),
         _ => None,
     }
 }
